@@ -27,6 +27,7 @@ from pony.orm import core                                    # noqa: E402
 from pony.orm.core import db_session, commit                 # noqa: E402
 
 LEVEL = 'model_checking'
+SKIP_MC = bool(__import__('os').environ.get('VERIF_TXN_SKIP_MC'))
 
 FLASK_SIG = 'C18:flask:_exit_session:exc_type-not-passed:view-exception-commits'
 EXC_NAME = {'none': 'none', 'allowed': 'AllowedExc', 'retryable': 'RetryExc', 'other': 'OtherExc',
@@ -260,6 +261,8 @@ def run(ctx):
     else:
         cfgs = [('sessions', txnlib.mc_cfg(txnlib.ALL_INV, txnlib.ALL_PROP, MaxRetry=2, MaxOps=3, MaxSess=2), True),
                 ('two-faults', txnlib.mc_cfg(txnlib.ALL_INV, txnlib.ALL_PROP, MaxFaults=2, Forms='{"dec"}', MaxRetry=2), False)]
+    if SKIP_MC:
+        cfgs = []      # development aid (mutant runs): the TLC runs on the spec do not depend on pony
     states = transitions = 0
     mc = {}
     for name, cfg, cov in cfgs:
